@@ -6,7 +6,7 @@
    the client that popped it is stored inside it, so "the poll that was handed that client's offer"
    is the entry holding the client. Proofs: Proofs/BrokerProofs.v, BrokerSteps.v, BrokerThms.v. *)
 From Coq Require Import List NArith ZArith Bool.
-From Snow Require Import Model.Broker Proofs.BrokerProofs Proofs.BrokerSteps Proofs.BrokerThms Proofs.BrokerHist.
+From Snow Require Import Model.Broker Proofs.BrokerProofs Proofs.BrokerSteps Proofs.BrokerThms Proofs.BrokerHist Proofs.BrokerUrlHist.
 Import ListNotations.
 Open Scope N_scope.
 
@@ -95,6 +95,23 @@ Theorem C02_relay_url_not_older_than_request : forall v br s p e m,
                  lookup (c_fp c) b = Some (m_url m)) /\
     (c_epoch c = List.length (br_hist s) -> m_url m = c_url c).
 Proof. exact match_response_since_request. Qed.
+
+(* The same over histories, with no reference to the ghost fields: in any history from the empty broker, a poll that
+   returned a match m was handed it by a step L_RvForward p OF THE HISTORY; the URL is what the list current at that
+   step configures for the fingerprint the client named; that client's accepted request L_Client n ofp o (Some p) comes
+   EARLIER in the history (and was accepted against the list current then: its fingerprint was in it); offer and NAT
+   type are the request's. So the list the URL is taken from is the one current at the request or one installed after
+   it (C02_lists_since applied to sreq and the run up to sfwd), never one replaced before the request. *)
+Theorem C02_relay_url_history : forall v br ls s p e m,
+  run v (init br) ls = Some s -> nth_error (entries s) p = Some e -> e_w e = W_Done (PMatch m) ->
+  exists pre n ofp o mid post sreq sfwd,
+    ls = pre ++ L_Client n ofp o (Some p) :: mid ++ L_RvForward p :: post /\
+    run v (init br) pre = Some sreq /\
+    run v (init br) (pre ++ L_Client n ofp o (Some p) :: mid) = Some sfwd /\
+    m_offer m = o /\ m_nat m = n /\
+    lookup (fp_of ofp) (bridges sreq) <> None /\
+    lookup (fp_of ofp) (bridges sfwd) = Some (m_url m).
+Proof. exact relay_url_history. Qed.
 
 (* The weaker form (a corollary, kept for its name): some installed list configures the URL. Its first existential
    ranges over the whole history, so alone it would admit a URL from a list older than the request once any list was
@@ -190,7 +207,8 @@ Qed.
    the request and the forward. History, newest first: [(7,11)]; [(7,10)]; [(7,9)]; [(7,8)]. The list at the request
    sits at position 4 - 2 = 2 and configures c_url = 9; the URL handed out is 11, from position 0 <= 2; the older
    list at position 3 (URL 8, the stale one) is out of range although it, too, is "an installed list" and the
-   disjunct c_epoch c < length of C02_relay_url holds. *)
+   disjunct c_epoch c < length of C02_relay_url holds. The run also has the shape C02_relay_url_history finds:
+   pre = [L_Install; L_Poll], the request, mid = [L_Install; L_RvOffer; L_Install], the forward. *)
 Example C02_reinstall_between_request_and_forward :
   exists s e c m, run V1 (init [(7, 8)])
      [L_Install [(7, 9)]; L_Poll 1 NatUnrestricted 1 0; L_Client NatRestricted (Some 7) 100 (Some 0%nat);
